@@ -6,6 +6,8 @@ CONSTANTS
   MaxPad = 1
   MaxGetter = 3
   MaxPath = 2
+  MaxHist = 2
+INVARIANT HistoryIndependent
 INVARIANT Precedence
 INVARIANT FilesInOrder
 INVARIANT AppendExtends
